@@ -1,7 +1,7 @@
 #!/bin/bash
 # usage: tools/run_sensitivity.sh [parallelism]  - runs every /verif/sensitivity/*.diff against the checks listed in its .props
 set -u
-cd /verif
+cd "$(dirname "$0")/.."
 PAR="${1:-4}"
 run_one() {
   n="$1"; props=$(cat sensitivity/$n.props)
